@@ -48,12 +48,17 @@ DL(items) == << [N("OP", 0, "", "query") EXCEPT !.vdefs = <<[name |-> "l", type 
 D13 == DL(<<[t |-> "int", v |-> 1]>>)
 D14 == DL(<<[t |-> "int", v |-> 2], [t |-> "int", v |-> 3]>>)
 
+\* D15: the same object field twice under one response key, the later occurrence with a field that fails at run time
+\*      { o { s } o { sn } }   with the resolver of sn answering null (sn: String!): the error carries the locations of the merged nodes
+D15 == << N("OP", 0, "", "query"), N("F", 1, "o", ""), N("F", 2, "s", ""), N("F", 1, "o", ""), N("F", 4, "sn", "") >>
+
 DocsStd == [ D1 |-> [class |-> "valid", nodes |-> D1], D2 |-> [class |-> "valid", nodes |-> D2],
              D3 |-> [class |-> "invalid", nodes |-> D3], D4 |-> [class |-> "broken", nodes |-> D4],
              D5 |-> [class |-> "valid", nodes |-> D5], D6 |-> [class |-> "valid", nodes |-> D6],
              D7 |-> [class |-> "invalid", nodes |-> D7], D8 |-> [class |-> "invalid", nodes |-> D8],
              D9 |-> [class |-> "valid", nodes |-> D9], D10 |-> [class |-> "valid", nodes |-> D10], D11 |-> [class |-> "invalid", nodes |-> D11],
-             D12 |-> [class |-> "valid", nodes |-> D12], D13 |-> [class |-> "valid", nodes |-> D13], D14 |-> [class |-> "valid", nodes |-> D14] ]
+             D12 |-> [class |-> "valid", nodes |-> D12], D13 |-> [class |-> "valid", nodes |-> D13], D14 |-> [class |-> "valid", nodes |-> D14],
+             D15 |-> [class |-> "valid", nodes |-> D15] ]
 
 Rq(d, sp, opn, g) == [doc |-> d, spelling |-> sp, opName |-> opn, given |-> g]
 PoolStd == { Rq("D1", "str", "A", <<>>), Rq("D1", "str", "B", <<>>), Rq("D1", "bytes", "A", <<>>), Rq("D1", "str", "", <<>>),
@@ -67,7 +72,7 @@ PoolEnv == PoolStd \cup { Rq("D2", "str", "", [v |-> Bool(TRUE), extra |-> Int(1
                           Rq("D3", "bytes", "A", <<>>), Rq("D4", "str", "A", [v |-> Bool(TRUE)]) }
 \* history-sensitive documents: widening fragment then the other implementer; invalid documents of several rules, repeated
 PoolHist == { Rq("D9", "str", "", <<>>), Rq("D10", "str", "", <<>>), Rq("D11", "str", "A", <<>>), Rq("D11", "bytes", "A", <<>>),
-              Rq("D7", "str", "", <<>>), Rq("D3", "str", "", <<>>), Rq("D1", "str", "A", <<>>),
+              Rq("D7", "str", "", <<>>), Rq("D3", "str", "", <<>>), [doc |-> "D15", spelling |-> "str", opName |-> "", given |-> <<>>, overlay |-> (<<"o", "sn">> :> [o |-> "null"])],
               Rq("D12", "str", "", [z |-> Str("XLARGE")]), Rq("D12", "str", "", [z |-> Str("XLARG")]),
               Rq("D13", "str", "", <<>>), Rq("D14", "str", "", <<>>) }
 PoolSmall == { Rq("D1", "str", "A", <<>>), Rq("D1", "bytes", "B", <<>>), Rq("D2", "str", "", [v |-> Bool(TRUE)]), Rq("D2", "str", "", [v |-> Bool(FALSE)]),
